@@ -1388,7 +1388,7 @@ pub enum EqMode {
 }
 
 /// Hands out (and returns a rendering of) everything the monitor holds for the application.
-fn drain_events(m: &Mon, logger: &Arc<SimLogger>) -> Vec<String> {
+pub fn drain_events(m: &Mon, logger: &Arc<SimLogger>) -> Vec<String> {
 	let mut out: Vec<String> = Vec::new();
 	for e in m.get_and_clear_pending_monitor_events() {
 		out.push(format!("MonitorEvent:{}", simcore::hex(&e.encode())));
